@@ -163,6 +163,30 @@ def proof_gate(prop, extra_modules=()):
         names += [m.group(2) for m in THM_RE.finditer(src) if m.group(1) == "Theorem"]
         examples += [m.group(2) for m in THM_RE.finditer(src) if m.group(1) == "Example"]
     os.makedirs(os.path.join(BUILD, "pa"), exist_ok=True)
+    # Print Assumptions depends only on the compiled development: reuse the previous output when no
+    # .vo and no pinned file changed since (the make above has just (re)built whatever was stale)
+    sig = hashlib.sha256()
+    for pf in pfiles:
+        sig.update(open(os.path.join(COQ, "Props", pf), "rb").read())
+    vos = []
+    for root, _, fs in os.walk(COQ):
+        for f in fs:
+            if f.endswith(".vo"):
+                vos.append("%s:%d" % (os.path.join(root, f), int(os.path.getmtime(os.path.join(root, f)))))
+    sig.update("\n".join(sorted(vos)).encode())
+    cache_p = os.path.join(BUILD, "pa", "%s.cache.json" % prop)
+    if os.path.exists(cache_p):
+        try:
+            cj = json.load(open(cache_p))
+            if cj.get("sig") == sig.hexdigest():
+                res["theorems"] = [tuple(x) for x in cj["theorems"]]
+                res["axioms"] = set(cj["axioms"])
+                res["n_theorems"], res["n_examples"] = cj["n_theorems"], cj["n_examples"]
+                res["pa_cached"] = True
+                res["wall"] = time.time() - t0
+                return res
+        except Exception:
+            pass
     pa = os.path.join(BUILD, "pa", "PA_%s_%d.v" % (prop, os.getpid()))
     with open(pa, "w") as f:
         for pf in pfiles:
@@ -206,6 +230,10 @@ def proof_gate(prop, extra_modules=()):
     res["n_theorems"] = len(names)
     res["n_examples"] = len(examples)
     res["wall"] = time.time() - t0
+    if res["ok"]:
+        with open(cache_p, "w") as f:
+            json.dump({"sig": sig.hexdigest(), "theorems": res["theorems"], "axioms": sorted(res["axioms"]),
+                       "n_theorems": len(names), "n_examples": len(examples)}, f)
     return res
 
 
